@@ -140,7 +140,7 @@ class Term(ABC):
         result: list[str] = []
         if args:
             result.extend(map(Op.str, args))
-        if not Op.is_close(self.height, 1.0):
+        if not Op.is_close(self.height, 1.0) and Op.str(self.height) != Op.str(1.0):
             result.append(Op.str(self.height))
         return " ".join(result)
 
